@@ -273,6 +273,12 @@ def apply_op_shape(shape, op):
     if kind == "L":
         return shape
     body = op[1:]
+    if kind == "W":
+        return [shape]
+    if kind == "I":
+        kids = _at(shape, _parse_addr(body))
+        kids[:] = [list(kids)]
+        return shape
     if kind == "D":
         addr = [int(x) for x in body.split(".")]
         del _at(shape, addr[:-1])[addr[-1]]
@@ -311,8 +317,15 @@ def random_history(rng: random.Random, shape, rounds: int):
     for _ in range(rounds):
         for _e in range(rng.choice([1, 1, 1, 2, 3])):
             addrs = _addrs(cur)
-            kind = rng.choice(["D", "D", "D", "F", "E", "E", "R", "M", "M"])
-            if kind == "D":
+            kind = rng.choice(["D", "D", "D", "F", "E", "E", "R", "M", "M", "W", "I"])
+            if kind == "W":
+                op = "W"
+            elif kind == "I":
+                cands = [a for a in addrs if len(_at(cur, a)) >= 1]
+                if not cands:
+                    continue
+                op = "I" + _addr_str(rng.choice(cands))
+            elif kind == "D":
                 cands = [a for a in addrs if a]
                 if rng.random() < 0.6:                # prefer leading siblings (a shifted node becomes children[0])
                     lead = [a for a in cands if a[-1] == 0 and len(_at(cur, a[:-1])) >= 2]
@@ -515,6 +528,17 @@ def run_history(d, on_layout):
             )
             on_layout(k, root)
             k += 1
+        elif kind == "W":
+            from bigtree import Node
+            new = Node("w%d" % next(ctr))
+            root.parent = new
+            root = new
+        elif kind == "I":
+            from bigtree import Node
+            p = _node_at(root, _parse_addr(body))
+            new = Node("i%d" % next(ctr))
+            new.children = list(p.children)
+            new.parent = p
         elif kind == "D":
             addr = [int(x) for x in body.split(".")]
             _node_at(root, addr).parent = None
